@@ -1,15 +1,21 @@
 /- Line-protocol driver for the C16 model (ForML.Model.Serving).
 
-   cfg      ::= (cfg (caller*) (app*) ((app inst)*) workers locked)   caller ::= (app badEncoding badAccept kind payload)
-   outcome  ::= (value inst payload) | (error kind)
+   cfg      ::= (cfg (caller*) (app*) ((app inst)*) workers locked ((inst fanout)*) reset)
+   caller   ::= (app badEncoding badAccept kind payload)      kind ::= ok | missingColumn | fatal | (refused branch)
+   reset    ::= always | firstCallOnly | onSuccessOnly
+   outcome  ::= (value inst payload) | (mixed inst (payload*)) | (error err)     err ::= missingApp | … | (invalid payload branch)
    (replay cfg (step*))          → (ok stuck (answer*)) | (disabled k)       step ::= (arrive c) | (desc c) | …
         plus the macro step (desc* c): thread c runs `_get_descriptor` from where it is until it leaves it
    (random cfg seed fuel)        → (ok stuck nsteps (answer*))
    (validate cfg (event*))       → (ok stuck (answer*)) | (reject reason k …)
         event ::= (arrive c) | (answer c outcome)    — the observable projection of a schedule
+   (worker reset inst fanout ((kind payload)*))  → (ok (outcome*) queueLength calls)
+        one pool worker serving the entries one after the other (`serveAll`)
+   (http (outcome*))             → (ok ((status served)*))      served ::= none | inst   — the REST gateway's mapping
 -/
 import ForML.Model.Sexp
 import ForML.Model.Serving
+import ForML.Model.ServingGateway
 open ForML ForML.Serving
 
 def bool? : Sexp → Option Bool
@@ -21,6 +27,13 @@ def kind? : Sexp → Option EntryKind
   | .atom "ok" => some .ok
   | .atom "missingColumn" => some .missingColumn
   | .atom "fatal" => some .fatal
+  | .list [.atom "refused", k] => k.nat?.map .refused
+  | _ => none
+
+def reset? : Sexp → Option ResetPolicy
+  | .atom "always" => some .always
+  | .atom "firstCallOnly" => some .firstCallOnly
+  | .atom "onSuccessOnly" => some .onSuccessOnly
   | _ => none
 
 def err? : Sexp → Option Err
@@ -29,20 +42,24 @@ def err? : Sexp → Option Err
   | .atom "missingFeatures" => some .missingFeatures
   | .atom "fatal" => some .fatal
   | .atom "notRunning" => some .notRunning
+  | .list [.atom "invalid", p, k] => do pure (.invalid (← p.nat?) (← k.nat?))
   | _ => none
 
-def errName : Err → String
-  | .missingApp => "missingApp" | .unsupported => "unsupported" | .missingFeatures => "missingFeatures"
-  | .fatal => "fatal" | .notRunning => "notRunning"
+def ofErr : Err → Sexp
+  | .missingApp => .atom "missingApp" | .unsupported => .atom "unsupported"
+  | .missingFeatures => .atom "missingFeatures" | .fatal => .atom "fatal" | .notRunning => .atom "notRunning"
+  | .invalid p k => .list [.atom "invalid", Sexp.ofNat p, Sexp.ofNat k]
 
 def outcome? : Sexp → Option Outcome
   | .list [.atom "value", i, p] => do pure (.value (← i.nat?) (← p.nat?))
+  | .list [.atom "mixed", i, ps] => do pure (.mixed (← i.nat?) (← ps.natList?))
   | .list [.atom "error", e] => do pure (.error (← err? e))
   | _ => none
 
 def ofOutcome : Outcome → Sexp
   | .value i p => .list [.atom "value", Sexp.ofNat i, Sexp.ofNat p]
-  | .error e => .list [.atom "error", .atom (errName e)]
+  | .mixed i ps => .list [.atom "mixed", Sexp.ofNat i, .list (ps.map Sexp.ofNat)]
+  | .error e => .list [.atom "error", ofErr e]
 
 def caller? : Sexp → Option CallerSpec
   | .list [a, b, ba, k, p] => do pure ⟨← a.nat?, ← bool? b, ← bool? ba, ⟨← kind? k, ← p.nat?⟩⟩
@@ -52,17 +69,25 @@ def pair? : Sexp → Option (Nat × Nat)
   | .list [a, b] => do pure (← a.nat?, ← b.nat?)
   | _ => none
 
-/-- `select` must be given for every inventory application: no default instance is invented -/
+/-- `select` must be given for every inventory application and the fan-out for every selected instance: no
+default instance / pipeline shape is invented -/
 def cfg? : Sexp → Option Config
-  | .list [.atom "cfg", .list cs, inv, .list sel, w, l] => do
+  | .list [.atom "cfg", .list cs, inv, .list sel, w, l, .list fan, rs] => do
     let callers ← cs.mapM caller?
     let inventory ← inv.natList?
     let table ← sel.mapM pair?
     let workers ← w.nat?
     let locked ← bool? l
-    if inventory.all (fun a => (table.lookup a).isSome) then
-      pure { callers, inventory, select := fun a => (table.lookup a).getD 0, workers, locked }
+    let fans ← fan.mapM pair?
+    let reset ← reset? rs
+    if inventory.all (fun a => (table.lookup a).isSome) && table.all (fun ai => (fans.lookup ai.2).isSome) then
+      pure { callers, inventory, select := fun a => (table.lookup a).getD 0, workers, locked,
+             fanout := fun i => (fans.lookup i).getD 1, reset }
     else none
+  | _ => none
+
+def entry? : Sexp → Option Entry
+  | .list [k, p] => do pure ⟨← kind? k, ← p.nat?⟩
   | _ => none
 
 def step? : Sexp → Option Step
@@ -225,6 +250,19 @@ def stepC16 : Sexp → Sexp
       | .error r => r
       | .ok s => .list [.atom "ok", Sexp.ofBool (stuck cfg s), ofAnswers s.answers]
     | _, _ => .atom "bad-op"
+  | .list [.atom "worker", rs, i, n, .list es] =>
+    match reset? rs, i.nat?, n.nat?, es.mapM entry? with
+    | some pol, some inst, some n, some hist =>
+      let r := serveAll pol inst n {} hist
+      .list [.atom "ok", .list (r.1.map ofOutcome), Sexp.ofNat r.2.queue.length, Sexp.ofNat r.2.calls]
+    | _, _, _, _ => .atom "bad-op"
+  | .list [.atom "http", .list os] =>
+    match os.mapM outcome? with
+    | some outs =>
+      .list [.atom "ok", .list (outs.map (fun o =>
+        let r := gateway o
+        .list [Sexp.ofNat r.status, match r.served with | some i => Sexp.ofNat i | none => .atom "none"]))]
+    | none => .atom "bad-op"
   | _ => .atom "bad-op"
 
 def main : IO Unit := driverLoop stepC16
